@@ -172,6 +172,13 @@ def run_config(c, cfg):
 
     def judge(us, tag, letters=None):
         got = impl_run(us)
+        if sim == 'delay':
+            # differential: the same script on a queue that is a copy of the shared template and on a brand-new queue
+            fresh_q = e1.run_delay(impl, us, TIMES, qdt, len(TIMES), dt=qdt)
+            if fresh_q['rows'] != got['rows'] or fresh_q['queue'] != got['queue']:
+                c.violation('C06/delay/%s/%s/template-copy-differs' % ('safe' if cfg['safe'] else 'plain', sp['name']),
+                            'the same script gives %s on a copy of the template queue and %s on a new queue (copies must be independent)' % (
+                                got['rows'], fresh_q['rows']), dict(cfg=cfg, us=us, rows=got['rows'], source=tag, letters=letters))
         c.count('traces'); c.count('evaluations')
         rows = got['rows']
         consumed = max(got['consumed'], 1)
